@@ -25,6 +25,8 @@ h4v_native_bits(const char *name, int idx)
     return 0;
 }
 
+extern int memio_overflow __attribute__((weak));
+
 int
 main(int argc, char **argv)
 {
@@ -55,6 +57,8 @@ main(int argc, char **argv)
         fclose(f);
     }
     harness();
+    if (&memio_overflow != 0 && memio_overflow) /* the in-memory disk was too small: a harness sizing error, never a verdict about the library */
+        printf("H4V-MODEL-LIMIT memio disk too small\n");
     printf(h4v_failed ? "H4V-RESULT FAIL\n" : "H4V-RESULT PASS\n");
     return h4v_failed ? 1 : 0;
 }
